@@ -26,7 +26,11 @@ RULE = ('psd: every shape (m,n) with 1<=m,n<=S (S=8 quick, 12 thorough; all pari
         'maps), "hann", "welch" (m>=3), user arrays (ones, random positive); peak: on-grid cosine of every '
         'admissible integer frequency pair; bands: edges drawn strictly between distinct sample radii, plus an '
         'edge exactly on a sample radius, as frequencies and as periods, under both NumPy configurations; synth: '
-        'abc_psd / ab_psd parameters x sizes 3..40 x masks (none, random boolean, disc). A case is non-trivial '
+        'abc_psd / ab_psd parameters x sizes 3..40 x masks (none, random boolean, disc); history: on ONE Interferogram, '
+        'psd / bandlimited_rms / total_integrated_scatter interleaved with in-place mutators (remove_piston/tiptilt/power, '
+        'fill, mask, spike_clip, data *= k, data[0,0] += c) and rebinding ones (crop, pad, filter, data = ..., latcal, '
+        'strip_latcal): all query-mutator-query triples (thorough: two mutators) + random interleavings to length 14, each '
+        'query compared with the same call on a fresh object built from a copy of the current data. A case is non-trivial '
         'unless the map is 1x1 or all zero; distinct = distinct case dicts')
 ASSUMPTIONS = [
     'scipy.fft.fft2 computes the DFT sum; fftshift/ifftshift/fftfreq are the index maps of Model.C13 (the maps '
@@ -506,7 +510,92 @@ def pred_synth(case):
     return out, z
 
 
-PRED = {'psd': pred_psd, 'band': pred_band, 'methods': pred_methods, 'synth': lambda c: pred_synth(c)[0]}
+# ---- histories on ONE Interferogram object: spectral queries interleaved with mutators
+H_QUERIES = ['psd', 'brms', 'tis']
+H_INPLACE = ['remove_piston', 'remove_tiptilt', 'remove_power', 'fill', 'mask', 'spike_clip', 'scale', 'poke']
+H_REBIND = ['crop', 'pad', 'filter', 'rebind', 'latcal', 'strip_latcal']
+H_OPS = H_QUERIES + H_INPLACE + H_REBIND
+
+
+def _h_mutate(ifg, op):
+    d = ifg.data
+    if op in ('remove_piston', 'remove_tiptilt', 'remove_power', 'strip_latcal', 'crop'):
+        getattr(ifg, op)()
+    elif op == 'fill':
+        ifg.fill(0.5)
+    elif op == 'mask':
+        m, n = d.shape
+        yy, xx = np.mgrid[0:m, 0:n]
+        ifg.mask(np.hypot(xx - n // 2, yy - m // 2) <= 0.45 * max(m, n))
+    elif op == 'spike_clip':
+        ifg.spike_clip(nsigma=1.2)
+    elif op == 'scale':
+        ifg.data *= 1.7            # in place: the array object stays the same
+    elif op == 'poke':
+        ifg.data[0, 0] += 3.0
+    elif op == 'pad':
+        ifg.pad(0.0, samples=1)
+    elif op == 'filter':
+        ifg.filter(0.25 / ifg.dx, 'lowpass')
+    elif op == 'rebind':
+        ifg.data = ifg.data * 0.5  # a new array object
+    elif op == 'latcal':
+        ifg.latcal(float(ifg.dx) * 1.5)
+    else:
+        raise ValueError(op)
+
+
+def _h_query(ifg, op):
+    """the observable of one spectral query, as a dict of arrays"""
+    dx = float(ifg.dx)
+    if op == 'psd':
+        P = ifg.psd()
+        return {'psd.data': np.asarray(P.data), 'psd.x': np.asarray(P.x), 'psd.y': np.asarray(P.y), 'psd.dx': np.asarray(P.dx)}
+    if op == 'brms':
+        return {'bandlimited_rms': np.asarray(ifg.bandlimited_rms(flow=0.0, fhigh=0.3 / dx))}
+    if op == 'tis':
+        return {'total_integrated_scatter': np.asarray(ifg.total_integrated_scatter(1000 * dx / 0.3, 5.0))}
+    raise ValueError(op)
+
+
+def pred_history(case, verbose=False):
+    """every spectral query on an object with a history must equal the same query on a FRESH object built from a
+    copy of the current data (and dx, wavelength): the results depend on the current state only"""
+    itf, _ = _impl()
+    h = _height(case)
+    ifg = itf.Interferogram(h.copy(), dx=case['dx'])
+    out = []
+    with _config(case.get('config', 'numpy2')):
+        for k, op in enumerate(case['ops']):
+            try:
+                if op in H_QUERIES:
+                    got = _h_query(ifg, op)
+                    fresh = itf.Interferogram(np.array(ifg.data, copy=True), dx=float(ifg.dx), wavelength=ifg.wavelength)
+                    want = _h_query(fresh, op)
+                    bad = []
+                    for key in want:
+                        a, b = got[key], want[key]
+                        if a.shape != b.shape or not np.allclose(a, b, rtol=1e-12, atol=0, equal_nan=True):
+                            bad.append(key)
+                    if verbose:
+                        print(f'  step {k} {op:14s} ' + ('DIFFERS from a fresh object: ' + ', '.join(bad) if bad else 'same as a fresh object'))
+                    if bad:
+                        a, b = got[bad[0]], want[bad[0]]
+                        out.append(('history', f'step {k} ({op}) after {case["ops"][:k]}: {bad[0]} differs from the same call on a fresh '
+                                               f'Interferogram of the current data (max |value| {float(np.nanmax(np.abs(a))) if a.size and np.isfinite(a).any() else float("nan")!r} '
+                                               f'vs {float(np.nanmax(np.abs(b))) if b.size and np.isfinite(b).any() else float("nan")!r})'))
+                        return out
+                else:
+                    _h_mutate(ifg, op)
+                    if verbose:
+                        print(f'  step {k} {op:14s} data {ifg.data.shape} dx {float(ifg.dx)!r}')
+            except Exception as ex:
+                return out + [('history', f'step {k} ({op}) raised {type(ex).__name__}: {ex}')]
+    return out
+
+
+PRED = {'psd': pred_psd, 'band': pred_band, 'methods': pred_methods, 'synth': lambda c: pred_synth(c)[0],
+        'history': pred_history}
 
 
 # ------------------------------------------------------------------------------------------------
@@ -611,6 +700,31 @@ def _method_cases(ctx):
         for cfg in CONFIGS:
             cases.append({'kind': 'methods', 'shape': [m, n], 'dx': float(10 ** rng.uniform(-1, 1)), 'seed': _seed(rng),
                           'data': 'normal', 'scale': 100.0, 'config': cfg})
+    return cases
+
+
+def _history_cases(ctx):
+    rng = ctx.rng
+    cases = []
+    shapes = [(6, 6), (5, 8), (9, 4)]
+    base = lambda shp, ops, cfg: {'kind': 'history', 'shape': list(shp), 'dx': float(10 ** rng.uniform(-1, 1)),   # noqa: E731
+                                  'seed': _seed(rng), 'data': 'normal', 'scale': 100.0, 'config': cfg, 'ops': ops}
+    # exhaustive: query, mutator, query (every pair of queries around every mutator), and query, mutator, mutator, query
+    for k, (q1, mu, q2) in enumerate(itertools.product(H_QUERIES, H_INPLACE + H_REBIND, H_QUERIES)):
+        cases.append(base(shapes[k % len(shapes)], [q1, mu, q2], CONFIGS[k % 2]))
+    if ctx.thorough:
+        for k, (q1, m1, m2, q2) in enumerate(itertools.product(H_QUERIES, H_INPLACE + H_REBIND, H_INPLACE + H_REBIND, H_QUERIES)):
+            cases.append(base(shapes[k % len(shapes)], [q1, m1, m2, q2], CONFIGS[k % 2]))
+    # random longer interleavings
+    for _ in range(ctx.scale(60, 600)):
+        L = int(rng.integers(4, 14))
+        ops = []
+        for _k in range(L):
+            ops.append(H_QUERIES[int(rng.integers(3))] if rng.random() < 0.45 else (H_INPLACE + H_REBIND)[int(rng.integers(14))])
+        ops.append(H_QUERIES[int(rng.integers(3))])
+        if ops.count('pad') > 3:
+            continue
+        cases.append(base(shapes[int(rng.integers(len(shapes)))], ops, CONFIGS[int(rng.integers(2))]))
     return cases
 
 
@@ -740,6 +854,11 @@ def _correspondence(ctx):
             jobs.append(('brms', ({**case, 'band': [lo, hi]}, got, float(p.sum() / (m * n * case['dx'] ** 2)))))
 
     # ---------------- Interferogram methods
+    for case in _history_cases(ctx):
+        nq = sum(op in H_QUERIES for op in case['ops'])
+        ctx.case('history', case, nontrivial=nq >= 2, tag=f'len{min(len(case["ops"]), 6)}/{case["config"]}')
+        for item, detail in pred_history(case):
+            ctx.pred_fail(item, case, detail)
     for case in _method_cases(ctx):
         m, n = case['shape']
         ctx.case('methods', case, nontrivial=True, tag=f'{_tag_shape(m, n)}/{case["config"]}')
@@ -892,6 +1011,12 @@ def _search(ctx, hints):
             f = _first_fail({'kind': 'methods', 'shape': [m, n], 'dx': 0.5, 'seed': 5, 'data': 'normal', 'config': cfg})
             if f:
                 return f
+    # 5b. histories on one object: query, mutate, query
+    for (q1, mu, q2) in itertools.product(H_QUERIES, H_INPLACE + H_REBIND, H_QUERIES):
+        f = _first_fail({'kind': 'history', 'shape': [4, 5], 'dx': 0.5, 'seed': 7, 'data': 'normal', 'scale': 100.0,
+                         'config': 'numpy2', 'ops': [q1, mu, q2]})
+        if f:
+            return f
     # 6. synthetic surfaces
     for n in (3, 4, 5, 8, 9):
         for fcn, params in (('abc', {'a': 1.0, 'b': 2.0, 'c': 3.0}), ('ab', {'a': 1.0, 'b': 2.0})):
@@ -924,6 +1049,10 @@ def replay(inp):
     with warnings.catch_warnings(), np.errstate(all='ignore'):
         warnings.simplefilter('ignore')
         fails = PRED[case['kind']](case)
+    if case['kind'] == 'history':
+        with warnings.catch_warnings(), np.errstate(all='ignore'):
+            warnings.simplefilter('ignore')
+            pred_history(case, verbose=True)
     if case['kind'] == 'psd':
         try:
             h, w, ux, uy, p = _real_psd(case)
@@ -959,7 +1088,10 @@ MANIFEST_ENTRY = {
              'comparators, the trapezoid/trapz lookup, the RMS rescale expression, method delegation. Compared on every run: '
              'model vs prysm psd (all shapes <= 8x8 / 12x12, five window kinds, both automatic branches), bandlimited_rms '
              '(both NumPy configurations), rescale; property predicates on the real outputs incl. spectral peak location '
-             'of on-grid cosines on the returned axes.'),
+             'of on-grid cosines on the returned axes; histories on ONE Interferogram (psd / bandlimited_rms / total_integrated_scatter '
+             'interleaved with in-place and rebinding mutators): every query equals the same call on a fresh object built from '
+             'a copy of the current data; structural fact (translated): these three methods read only data, dx, wavelength and '
+             'store nothing on the object.'),
     'note': ('Partial in these respects: theorems are over R/C, not floats; scipy.fft.fft2 = DFT sum, fftshift/ifftshift/'
              'fftfreq index maps and np.trapezoid are trusted primitives (the index maps are compared exhaustively each run); '
              'the window functions themselves (hann/welch values, the 2% corner heuristic) are only compared against an '
